@@ -152,6 +152,40 @@ func writerDoc(R *rand.Rand, c wcfg, idx int) (*doc, error) {
 	note(w.Put(d, a)) // "N G obj 1 0 R endobj"
 	refs = append(refs, a, b, cc, d)
 
+	// composite objects longer than the scanner buffer (1024 bytes) and of sizes
+	// that make their ends straddle buffer boundaries: refills happen in the
+	// middle of a dictionary, an array, a string
+	bigN := 1
+	if idx >= 5 && !e.Thorough {
+		bigN = 4 // quick tier: full size in the first documents only
+	}
+	bigDict := pdf.Dict{}
+	for i := 0; i < (60+R.IntN(40))/bigN; i++ {
+		bigDict[pdf.Name(fmt.Sprintf("Key%03d", i))] = pdf.Array{pdf.Integer(i), pdf.Name("Value"), pdf.String(fmt.Sprintf("entry %d of a long dictionary", i)), pdf.Boolean(i%2 == 0), nil}
+	}
+	bd := w.Alloc()
+	note(w.Put(bd, bigDict))
+	var bigArr pdf.Array
+	for i := 0; i < (150+R.IntN(200))/bigN; i++ {
+		switch i % 5 {
+		case 0:
+			bigArr = append(bigArr, pdf.Integer(i*7919))
+		case 1:
+			bigArr = append(bigArr, pdf.Dict{"I": pdf.Integer(i), "T": pdf.Boolean(true)})
+		case 2:
+			bigArr = append(bigArr, pdf.Name("false"))
+		case 3:
+			bigArr = append(bigArr, pdf.Boolean(false), nil)
+		default:
+			bigArr = append(bigArr, pdf.Real(0.5), a)
+		}
+	}
+	ba := w.Alloc()
+	note(w.Put(ba, bigArr))
+	bs := w.Alloc()
+	note(w.Put(bs, pdf.Dict{"Long": pdf.String(incompressible(R, (1500+R.IntN(800))/bigN)), "After": pdf.Array{pdf.Integer(1), pdf.Integer(2)}}))
+	refs = append(refs, bd, ba, bs)
+
 	// streams without filter whose raw body contains EOL+"endstream"
 	for i, body := range [][]byte{
 		[]byte("abc\nendstream\nXYZ and more data after the fake terminator\n"),
@@ -448,6 +482,33 @@ func handDocs() []*doc {
 		t.buf.Write(xb)
 		fmt.Fprintf(&t.buf, "\nendstream\nendobj\nstartxref\n%d\n%%%%EOF\n", xpos)
 		res = append(res, &doc{name: "hand-objstm-plain", class: "hand:objstm-unfiltered+xrefstream", data: t.buf.Bytes(), refs: R(1, 2, 6, 7, 8, 9, 10, 11, 12)})
+	}
+	{ // long dictionary, long array and a stream whose dictionary is long: every
+		// kind of composite object is being read when the scanner refills
+		t := newTextDoc("1.4")
+		t.obj(1, "<< /Type /Catalog /Pages 2 0 R >>")
+		t.obj(2, pagesObj)
+		var sb strings.Builder
+		sb.WriteString("<<")
+		for i := 0; i < 90; i++ {
+			fmt.Fprintf(&sb, " /K%02d [ %d true null (value %d) /N%d ]", i, i*13, i, i)
+		}
+		sb.WriteString(" >>")
+		t.obj(3, sb.String())
+		sb.Reset()
+		sb.WriteString("[")
+		for i := 0; i < 400; i++ {
+			fmt.Fprintf(&sb, " %d false /Nm << /A %d >>", i, i)
+		}
+		sb.WriteString(" ]")
+		t.obj(4, sb.String())
+		sb.Reset()
+		for i := 0; i < 80; i++ {
+			fmt.Fprintf(&sb, "/Pad%02d (0123456789) ", i)
+		}
+		t.stream(5, sb.String(), []byte("body after a long stream dictionary\nendstream\nmore"))
+		t.xref(6, "/Root 1 0 R", []int{1, 2, 3, 4, 5}, true)
+		res = append(res, &doc{name: "hand-big-composites", class: "hand:composites-longer-than-the-scanner-buffer", data: t.buf.Bytes(), refs: R(1, 2, 3, 4, 5)})
 	}
 	return res
 }
